@@ -6,6 +6,6 @@ cd "$(dirname "$0")/.."
 for p in "$@"; do
   out=$(VF_SRC="$wt" ./check "$p" --tier quick --no-evidence ${VF_ONLY:+--only "$VF_ONLY"} 2>&1); rc=$?
   echo "== $p exit=$rc"
-  echo "$out" | grep -E "^VIOLATION|^SUMMARY|^HARNESS|^VACUOUS|^KNOWN" | sort | uniq -c | sort -rn | head -8
+  echo "$out" | grep -E "^VIOLATION|^SUMMARY|^HARNESS|^VACUOUS|^KNOWN|^INCONCLUSIVE" | cut -c1-300 | sort | uniq -c | sort -rn | head -8
   echo "$out" | grep -A1 "^VIOLATION" | grep "^  program" | head -5
 done
